@@ -791,8 +791,12 @@ func (m *vestingMonitor) checkSummaries(r *kernel.Run, s *vSnap, where string) {
 			}
 			acc := c.App.AccountKeeper.GetAccount(ctx, addr)
 			if cva, ok := acc.(*authvesting.ContinuousVestingAccount); ok {
+				lc, ok := c.SafeLockedCoins(addr)
+				if !ok {
+					continue // degenerate schedule on which the SDK's own arithmetic panics: nothing to recompute
+				}
 				vest = vest.Add(cva.GetVestingCoins(c.Now).AmountOf(s.denom))
-				locked = locked.Add(c.App.BankKeeper.LockedCoins(ctx, addr).AmountOf(s.denom))
+				locked = locked.Add(lc.AmountOf(s.denom))
 			}
 		}
 		label := "summary"
